@@ -68,6 +68,12 @@ func c02CheckStep(prefix string, r *v1beta1.Rollout, pre, post *v1beta1.CommonSt
 	if preS == postS {
 		return
 	}
+	// C03: the TrafficRouting sub-state is skipped (upgrade done -> MetricsAnalysis) only for a partition-style step
+	// that replaces every stable pod (its stable Service was un-pinned in Init instead); every other step, and every
+	// canary-style or blue-green step, has its traffic rule applied before it counts as routed
+	if allowLastFull && (preS == v1beta1.CanaryStepStateInit || preS == v1beta1.CanaryStepStateUpgrade) && postS == v1beta1.CanaryStepStateMetricsAnalysis {
+		verifrt.Assert(v1beta1.IsRealPartition(r) && c02StepPods(cur, wlReplicas) >= wlReplicas, "C03.trafficRoutingSkippedOnlyForFullPartitionStep")
+	}
 	switch preS {
 	case v1beta1.CanaryStepStateInit:
 		verifrt.Assert(postS == v1beta1.CanaryStepStateUpgrade || postS == v1beta1.CanaryStepStateTrafficRouting || postS == v1beta1.CanaryStepStateMetricsAnalysis, prefix+".init.successors")
@@ -136,6 +142,11 @@ func VerifC02_CanaryRunCanary_Unknown()         { c02Canary(7) }
 
 func c02Canary(state int) {
 	vState = state
+	// Init and Upgrade behave differently for a canary-style Deployment (not a "real partition") and a partition-style
+	// workload: both are offered there
+	if state <= 1 {
+		vKindChoice, vKindMax = true, 1
+	}
 	n := verifrt.Concrete(verifrt.IntRange("nSteps", 1, verifrt.Bound("steps", 2, 3)))
 	cur := verifrt.Concrete(verifrt.IntRange("st.currentStepIndex", 1, n))
 	r := vCanaryRollout(n, cur)
